@@ -149,6 +149,12 @@ def shard(ctx):
         risky = [p for p in sorted(presets) if presets[p].get("scale") != "global" and presets[p].get("scenario") not in ("no_resilient_foods",)
                  and presets[p].get("shutoff") in ("continued", "long_delayed_shutoff", "short_delayed_shutoff")]
         cells += [(i, p) for i in ("SLV", "ALB", "ECU") for p in risky[::3]]
+        # every recorded finding is re-checked on every run (it must still fail in exactly the recorded way, and is reported)
+        for sig in sorted(ctx.findings):
+            parts = sig.split(":")
+            pid = ":".join(parts[2:-3])
+            if parts[0] == "run-fails" and pid in presets and (parts[1], pid) not in cells:
+                cells.append((parts[1], pid))
         rest = [(i, p) for p in sorted(presets) if presets[p].get("scale") != "global" for i in isos]
         rng = np.random.RandomState(ctx.seed)      # seeded sample of the remaining grid (finite domain; not a property-level RNG)
         pick = rng.choice(len(rest), size=min(len(rest), 100), replace=False)
